@@ -253,6 +253,52 @@ func checkC17(c *hx.Ctx) {
 	})
 	c.Floor("json_patch_split_compared_ok", 200)
 	c.Floor("json_patch_split_compared_failed", 200)
+	// ---- RFC 6902 "test": a test against the value the document holds succeeds (and lets the rest of the list apply), a
+	// test against another value fails the whole list - for strings that JSON encoders like to escape differently
+	{
+		tricky := []string{"a&b", "<tag>", "x>y", "https://e.example/?a=1&b=2", "é", "\u2028line", "quote\"q", "back\\slash", "tab\tx", "/slash", "emoji\U0001F600", "plain", "", "\u007f", "%41", "a\nb"}
+		for ti, str := range tricky {
+			doc := ref.Doc{"s": str, "o": map[string]interface{}{"k": str}, "arr": []interface{}{str, "other"}}
+			for pi, path := range []string{"/s", "/o/k", "/arr/0"} {
+				for _, equal := range []bool{true, false} {
+					val := str
+					if !equal {
+						val = str + "x"
+					}
+					patches := []interface{}{patchJSON(map[string]interface{}{"op": "test", "path": path, "value": val}, map[string]interface{}{"op": "add", "path": "/ok", "value": true})}
+					c.Eval()
+					rep, ok := composeRun(c, pool, composeCase{Doc: mustJSON(doc), Patches: mustJSON(patches)}, "json-patch-test")
+					if !ok || rep == nil {
+						return
+					}
+					replay := map[string]interface{}{"doc": doc, "patches": patches}
+					if rep.DeltaErr != "" {
+						c.Count("json_patch_test_not_validated")
+						continue
+					}
+					if equal {
+						want := ref.CopyTree(doc).(ref.Doc)
+						want["ok"] = true
+						if rep.ApplyErr != "" || docKeyOf(rep.Result) != ref.DocKey(want) {
+							replay["error"], replay["result"] = rep.ApplyErr, rawTree(rep.Result)
+							c.Violation(fmt.Sprintf("C17 a JSON patch 'test' against the value the document holds did not let the list apply (string #%d at %s): err=%q", ti, path, rep.ApplyErr), replay)
+							return
+						}
+						c.Count("json_patch_test_equal_applied")
+					} else {
+						if rep.ApplyErr == "" {
+							c.Violation(fmt.Sprintf("C17 a JSON patch 'test' against a different value let the list apply (string #%d at %s)", ti, path), replay)
+							return
+						}
+						c.Count("json_patch_test_unequal_failed")
+					}
+					c.Distinct(fmt.Sprintf("test|%d|%d|%v", ti, pi, equal))
+				}
+			}
+		}
+		c.Floor("json_patch_test_equal_applied", 30)
+		c.Floor("json_patch_test_unequal_failed", 30)
+	}
 	// ---- PatchesFromDocument round trip
 	nDocs := c.N(4000, 80000)
 	dseeds := make([]uint64, nDocs)
